@@ -39,9 +39,10 @@ const (
 	c5Sampler
 	c5Lazy
 	c5With
+	c5Drop // a sampler that drops every entry of a named level (N=0, M=0); out-of-range levels pass
 )
 
-var c5kindNames = [...]string{"obs", "io", "tee", "incr", "hooks", "sampler", "lazy", "with"}
+var c5kindNames = [...]string{"obs", "io", "tee", "incr", "hooks", "sampler", "lazy", "with", "drop-sampler"}
 
 type c5enab struct {
 	kind   int // 0 static, 1 atomic, 2 set
@@ -189,6 +190,10 @@ func (w *c5world) deliver(n *c5node, l zapcore.Level, val []zapcore.Level, leave
 			return true
 		}
 		return false
+	case c5Drop:
+		if l >= zapcore.DebugLevel && l <= zapcore.FatalLevel {
+			return false
+		}
 	}
 	return w.deliver(n.kids[0], l, val, leaves, hooks)
 }
@@ -226,7 +231,7 @@ func (w *c5world) gen(g *zsim.Stream, depth int, budget *int) *c5node {
 	if depth >= 3 || *budget <= 0 {
 		leafW = 1000
 	}
-	switch g.Weighted(leafW, leafW, 3, 2, 2, 1, 1, 1) {
+	switch g.Weighted(leafW, leafW, 3, 2, 2, 1, 1, 1, 1) {
 	case 0:
 		n.kind = c5LeafObs
 	case 1:
@@ -243,6 +248,11 @@ func (w *c5world) gen(g *zsim.Stream, depth int, budget *int) *c5node {
 		n.kind = c5Lazy
 	case 7:
 		n.kind = c5With
+	case 8:
+		n.kind = c5Drop
+		// Enabled says "the level is on", not "this entry will be kept":
+		// like increase-level nodes, only "Enabled false => nothing delivered" is judged
+		w.hasIncr = true
 	}
 	switch n.kind {
 	case c5LeafObs, c5LeafIO:
@@ -331,6 +341,8 @@ func (w *c5world) build(n *c5node, frag int) zapcore.Core {
 				c.Fail("C05: harness: the pass-all sampler dropped an entry", "%q", e.Message)
 			}
 		}))
+	case c5Drop:
+		n.core = zapcore.NewSamplerWithOptions(w.build(n.kids[0], frag), time.Hour, 0, 0)
 	case c5Lazy:
 		n.core = zapcore.NewLazyWith(w.build(n.kids[0], frag), []zapcore.Field{zap.Object("lazy", c5lazyMarsh{n})})
 	case c5With:
